@@ -128,7 +128,7 @@ T.append(tree('D15 help', cmd('app', 'root', extra=[grp('Application Options', [
     opt('', 'nodesc', 'scalar', 'int'),
     opt('', 'cjk', 'flag', desc='日本語の説明文は空白を含まないので強制的に折り返されます'),
     opt('', 'mix', 'flag', desc='aaaaaaaaaébbbbbbbbbé😀ccccccccéddddddddddж 100% sure'),
-    opt('m', 'map', 'map', 'string', desc='with\nnewline', init=['b:2', 'a:1'])],
+    opt('m', 'map', 'map', 'string', desc='with\nnewline', init=['b:2', 'a:1', 'd:4', 'c:3'])],
     [grp('Nested', [opt('', 'x', 'scalar', 'string', desc='nested x', env='X')], ns='ns', envNs='NS'),
      grp('Hidden Group', [opt('', 'inhid', 'flag', desc='in hidden group')], hidden=True)])],
     args=[{'name': 'fichier', 'vtype': 'string', 'desc': 'the input file 世界'}, {'name': 'rest', 'vtype': 'string', 'slice': True}],
@@ -172,7 +172,8 @@ T.append(tree('D19 short only', cmd('app', 'root', extra=[grp('Application Optio
     opt('b', '', 'flag', desc='second')])], cmds=[
     cmd('go', 'exec', desc='go somewhere', extra=[grp('Go', [opt('x', '', 'flag', desc='an x that also has quite a few words to say about itself'), opt('y', '', 'flag')])],
         args=[{'name': 'cible', 'vtype': 'string', 'desc': 'the target of the journey, described at some length so that the text wraps around'},
-              {'name': 'répertoire', 'vtype': 'string', 'desc': 'where to start from: a directory name, also described at sufficient length to wrap'}])])))
+              {'name': 'répertoire', 'vtype': 'string', 'desc': 'where to start from: a directory name, also described at sufficient length to wrap'}]),
+    cmd('st', 'exec', desc='status', extra=[grp('St', [opt('s', '', 'flag', desc='short status'), opt('t', '', 'flag', desc='terse')])])])))
 
 with open('argparse.ndjson', 'w') as f:
     for i, t in enumerate(T, 1):
